@@ -60,18 +60,18 @@ inline std::vector<Def> universe() {
   add(K_READ, ANY, 0x08, {"0d0100"}, true);                // 3
   add(K_READ, ANY, 0x08, {"0d010002"}, true);              // 4
   add(K_READ, ANY, 0x08, {"0d01000203"}, true);            // 5
-  add(K_READ, ANY, 0x08, {"0d0100020304"}, false);         // 6
+  add(K_READ, ANY, 0x08, {"0d0100020304"}, true);          // 6
   add(K_READ, ANY, 0x08, {"0d010002030405"}, false);       // 7
   // equal XOR fold (ID byte 4 folds onto byte 0, 5 onto 1, 6 onto 2)
   add(K_READ, ANY, 0x08, {"0e01000200"}, true);            // 8  same key as 5
-  add(K_READ, ANY, 0x08, {"0d0500020300"}, false);         // 9  same key as 6
+  add(K_READ, ANY, 0x08, {"0d0500020300"}, true);          // 9  same key as 6
   add(K_READ, ANY, 0x08, {"0d010502030400"}, false);       // 10 same key as 7
   // direction / source variants on shared IDs
   add(K_WRITE, ANY, 0x08, {"0d0100"}, true);               // 11
   add(K_PASSIVE_READ, ANY, 0x08, {"0d0100"}, true);        // 12
   add(K_PASSIVE_READ, 0x10, 0x08, {"0d0100"}, true);       // 13
   add(K_PASSIVE_READ, 0x03, 0x08, {"0d01"}, true);         // 14
-  add(K_PASSIVE_WRITE, ANY, 0x08, {"0d0100"}, false);      // 15
+  add(K_PASSIVE_WRITE, ANY, 0x08, {"0d0100"}, true);       // 15
   add(K_PASSIVE_READ, 0x10, 0x08, {"0d010002"}, false);    // 16
   add(K_WRITE, ANY, 0x08, {"0d01"}, true);                 // 17
   add(K_PASSIVE_READ, ANY, 0x08, {"0d"}, false);           // 18
@@ -95,7 +95,7 @@ inline std::vector<Def> universe() {
   add(K_READ, ANY, 0x08, {"0d01000203", "0d01000204"}, true);      // 34 common prefix 0d010002
   add(K_READ, ANY, 0x08, {"0d", "0e"}, true);              // 35 empty common prefix
   add(K_READ, ANY, 0x08, {"0d0100020304", "0d0500020304"}, true);  // 36 prefix 0d, 6 byte IDs
-  add(K_WRITE, ANY, 0xfe, {"0d0100", "0d0200"}, false);    // 37
+  add(K_WRITE, ANY, 0xfe, {"0d0100", "0d0200"}, true);     // 37
   add(K_PASSIVE_READ, ANY, 0x08, {"0e01000200"}, false);   // 38
   add(K_WRITE, ANY, 0x08, {"0d01000203"}, false);          // 39
   return u;
